@@ -472,7 +472,8 @@ class JSBoundMethod:
     def __init__(self, fn):
         self._fn = fn
 
-    def __call__(self, this_val, *args):
+    def __call__(self, this_val=UNDEFINED, *args):
+        # called detached and without arguments (var t = o.toString; t()): this is undefined
         return self._fn(this_val, *args)
 
 
